@@ -30,6 +30,7 @@ func (t *udpT) Build(bw bool) {
 }
 func (t *udpT) Acquire(ctx context.Context) *pool.Message { return t.w.CC.AcquireMessage(ctx) }
 func (t *udpT) Do(req *pool.Message) (*pool.Message, error) { return t.w.CC.Do(req) }
+func (t *udpT) Release(m *pool.Message) { t.w.CC.ReleaseMessage(m) }
 func (t *udpT) NewOuts() []message.Message {
 	var ms []message.Message
 	for _, o := range t.w.NewOuts() {
